@@ -551,7 +551,7 @@ func (r *replayGen) goE(e *E, env *goEnv) string {
 			return "gvLen(" + args[0] + ")"
 		case "cap":
 			return "gvCap(" + args[0] + ")"
-		case "base":
+		case "base", "bbase":
 			return "gvBase(" + args[0] + ")"
 		case "off":
 			return "any(int64(0))"
